@@ -389,6 +389,8 @@ struct EvalCase {
     files: Vec<(String, String, bool)>,
     /// after parsing: TmplGroup::set_inline_script_content(path, module, content) calls, in order
     post: Vec<(String, String)>,
+    /// add the further files BEFORE the template under test (insertion order must not matter)
+    files_first: bool,
 }
 #[derive(Clone)]
 enum FileSrc { Text(String), Rep(String, usize) }
@@ -437,7 +439,7 @@ fn ev(family: &'static str, src: String, checks: Vec<(&str, String, bool)>, vars
     EvalCase {
         family, path: "a".into(), src, name: String::new(),
         checks: checks.into_iter().map(|(s, e, q)| (s.to_string(), e, q)).collect(),
-        guards: vec![], vars, pool, pick, flat: None, any_diag: false, bmap1: family == "bmap", alts: vec![], files: vec![], post: vec![],
+        guards: vec![], vars, pool, pick, flat: None, any_diag: false, bmap1: family == "bmap", alts: vec![], files: vec![], post: vec![], files_first: false,
     }
 }
 
@@ -1151,7 +1153,11 @@ fn c13_case(label: &str, main: &str, files: Vec<(&str, &str, bool)>, want_texts:
     c.name = String::new();
     c.files = files.into_iter().map(|(p, s, sc)| (p.to_string(), s.to_string(), sc)).collect();
     let _ = label;
+    // both insertion orders: the template under test first, and last
+    let mut c2 = c.clone();
+    c2.files_first = true;
     out.push(Case::Eval(c));
+    out.push(Case::Eval(c2));
 }
 /// cross-file linking, EXECUTED through the all-templates bundle: which definition a `<template is>` reaches, what an
 /// `<include>` renders, which module an external `<wxs>` binds -- for every spelling of the reference
@@ -1386,6 +1392,7 @@ fn encode_eval_alt(c: &EvalCase, tuple: &[usize], alt: Option<(String, J)>) -> S
     if c.any_diag { o.push(("anydiag", J::Bool(true))); }
     if let Some((f, v)) = alt { o.push(("alts", J::Obj(vec![(f, v)]))); } else if !c.alts.is_empty() { o.push(("alts", J::Obj(c.alts.clone()))); }
     if !c.files.is_empty() { o.push(("gfiles", J::Arr(c.files.iter().map(|(p, s, sc)| J::Arr(vec![js(p), js(s), J::Bool(*sc)])).collect()))); }
+    if c.files_first { o.push(("ffirst", J::Bool(true))); }
     if !c.post.is_empty() { o.push(("post", J::Arr(c.post.iter().map(|(m, t)| J::Arr(vec![js(m), js(t)])).collect()))); }
     jo(o).text()
 }
@@ -1418,6 +1425,7 @@ fn decode_input(input: &str) -> Option<Case> {
                 any_diag: j.get("anydiag").map(|d| d.truthy()).unwrap_or(false),
                 bmap1: j.get("alts").is_some(),
                 alts: if let Some(J::Obj(o)) = j.get("alts") { o.clone() } else { vec![] },
+                files_first: j.get("ffirst").map(|d| d.truthy()).unwrap_or(false),
                 post: j.get("post").map(|f| f.arr().iter().map(|x| (x.arr()[0].str().unwrap_or("").to_string(), x.arr()[1].str().unwrap_or("").to_string())).collect()).unwrap_or_default(),
                 files: j.get("gfiles").map(|f| f.arr().iter().map(|x| (x.arr()[0].str().unwrap_or("").to_string(), x.arr()[1].str().unwrap_or("").to_string(), x.arr()[2].truthy())).collect()).unwrap_or_default(),
             }))
@@ -1452,8 +1460,9 @@ fn compile(id: usize, case: &Case, seen: &mut std::collections::HashSet<String>)
             let c2 = c.clone();
             let r = std::panic::catch_unwind(move || {
                 let mut g = TmplGroup::new();
+                if c2.files_first { for (p, s, script) in &c2.files { if *script { g.add_script(p, s); } else { let _ = g.add_tmpl(p, s); } } }
                 let diags = g.add_tmpl(&c2.path, &c2.src);
-                for (p, s, script) in &c2.files { if *script { g.add_script(p, s); } else { let _ = g.add_tmpl(p, s); } }
+                if !c2.files_first { for (p, s, script) in &c2.files { if *script { g.add_script(p, s); } else { let _ = g.add_tmpl(p, s); } } }
                 for (m, t) in &c2.post { let _ = g.set_inline_script_content(&c2.path, m, t); }
                 // Note / Warn diagnostics (e.g. `duplicated name` for `{ x: 1, x: 2 }`) do not reject the expression
                 let diag = diags.iter().filter(|d| d.prevent_success()).map(|d| format!("{:?}", d)).collect::<Vec<_>>().join("; ");
